@@ -34,6 +34,7 @@ type SecureScenario struct {
 	Invoked bool   `json:"invoked"`
 	ReplyEn string `json:"replyenc"`
 	Status  string `json:"status"`
+	Resend  bool   `json:"resend"`
 }
 
 var secEnforce int32
@@ -117,7 +118,7 @@ func drvSecure(args []string) int {
 
 func runSecure(rec *Rec, sc *SecureScenario, n int, rnd *rand.Rand) {
 	rec.SetTrace(sc.ID, map[string]interface{}{"mode": "secure", "kind": sc.Kind, "marker": sc.Marker, "accept": sc.Accept, "enforce": sc.Enforce,
-		"keys": sc.Keys, "keylen": sc.KeyLen, "codec": sc.Codec, "body": sc.Body, "reqenc": sc.ReqEnc, "invoked": sc.Invoked, "replyenc": sc.ReplyEn, "status": sc.Status})
+		"keys": sc.Keys, "keylen": sc.KeyLen, "codec": sc.Codec, "body": sc.Body, "reqenc": sc.ReqEnc, "invoked": sc.Invoked, "replyenc": sc.ReplyEn, "status": sc.Status, "resend": sc.Resend})
 	key := func() string {
 		b := make([]byte, sc.KeyLen)
 		for i := range b {
@@ -150,15 +151,56 @@ func runSecure(rec *Rec, sc *SecureScenario, n int, rnd *rand.Rand) {
 		}
 		rec.Flush()
 	}()
-	a, b := Pipe(fmt.Sprintf("XC%d", n), fmt.Sprintf("XS%d", n))
-	a.Tap()
-	sd := make(chan struct{})
-	go func() { srv.ServeConn(b); close(sd) }()
-	cs, st := cli.ServeConn(a)
-	<-sd
-	if !st.OK() {
-		rec.Emit("SetupFailed")
-		return
+	var cs erpc.Session
+	var a *Conn
+	var fw *forwarder
+	if sc.Resend {
+		// a redial-enabled client over loopback TCP; the connection is lost, the redial fails (server away), the
+		// server comes back: the exchange below is then re-written after a redial inside Call / Push
+		cli.Close()
+		cli = erpc.NewPeer(erpc.PeerConfig{DefaultBodyCodec: "json", RedialTimes: 1, RedialInterval: 3 * time.Millisecond, DialTimeout: 200 * time.Millisecond},
+			secure.NewPlugin(9999, k1))
+		var err error
+		if fw, err = newForwarder(srv); err != nil {
+			rec.Emit("SetupFailed")
+			return
+		}
+		defer fw.down()
+		fw.tap = true
+		s, st := cli.Dial(fw.addr)
+		if !st.OK() {
+			rec.Emit("SetupFailed")
+			return
+		}
+		cs = s
+		fw.waitConn(300 * time.Millisecond)
+		fw.down()
+		ended := WaitUntil(2*time.Second, func() bool {
+			select {
+			case <-cs.CloseNotify():
+				return true
+			default:
+				return false
+			}
+		})
+		fw.up()
+		if !ended {
+			rec.Emit("SetupFailed")
+			return
+		}
+	} else {
+		var b *Conn
+		a, b = Pipe(fmt.Sprintf("XC%d", n), fmt.Sprintf("XS%d", n))
+		a.Tap()
+		sd := make(chan struct{})
+		go func() { srv.ServeConn(b); close(sd) }()
+		var st *erpc.Status
+		cs, st = cli.ServeConn(a)
+		<-sd
+		if !st.OK() {
+			rec.Emit("SetupFailed")
+			return
+		}
 	}
 	rs := func(k int) string {
 		bb := make([]byte, k)
@@ -221,7 +263,12 @@ func runSecure(rec *Rec, sc *SecureScenario, n int, rnd *rand.Rand) {
 		time.Sleep(3 * time.Millisecond)
 	}
 	time.Sleep(time.Millisecond)
-	out, inb := a.Tapped()
+	var out, inb []byte
+	if fw != nil {
+		out, inb = fw.tapped()
+	} else {
+		out, inb = a.Tapped()
+	}
 	// the tag is searched verbatim; for JSON bodies the pad's special characters are escaped, so the
 	// alphanumeric head of the pad is searched as well
 	head := pad
